@@ -23,7 +23,9 @@ type producer struct {
 
 var c02Prelude = bn.KwFun + " f() { " + bn.KwReturn + " 1; }\n" + bn.KwVar + " arr = [1, 2];\n" + bn.KwVar + " obj = {a: 1};\n" +
 	// nil however it comes about: a bare return, a body that ends, a variable never given a value
-	bn.KwFun + " bare() { " + bn.KwReturn + "; }\n" + bn.KwFun + " fell() { }\n" + bn.KwVar + " unset;\n"
+	bn.KwFun + " bare() { " + bn.KwReturn + "; }\n" + bn.KwFun + " fell() { }\n" + bn.KwVar + " unset;\n" +
+	// containers that contain themselves: operands like any other array or object (only printing them is an error)
+	bn.KwVar + " cyc = [1, 2];\ncyc[0] = cyc;\n" + bn.KwVar + " cyo = {k: 1};\ncyo.me = cyo;\n"
 
 var c02Producers = []producer{
 	{"nil", "nil", false}, {"bare()", "nil", false}, {"fell()", "nil", false}, {"unset", "nil", false}, {bn.KwTrue, "bool", false}, {bn.KwFalse, "bool", false},
@@ -37,6 +39,7 @@ var c02Producers = []producer{
 	{"\"\"", "string", false}, {"\"a\"", "string", false}, {"\"ab c\"", "string", false}, {"\"12\"", "string", false}, {"\"১২\"", "string", false}, {"\"1.5\"", "string", false}, {"(\"a\" + \"\")", "string", false},
 	{"[]", "array", false}, {"[1]", "array", false}, {"arr", "array", false},
 	{"{}", "object", false}, {"{a: 1}", "object", false}, {"obj", "object", false},
+	{"cyc", "array", false}, {"cyo", "object", false},
 	{"f", "function", false}, {bn.BLen, "builtin", false},
 }
 
